@@ -5,3 +5,4 @@ import r_c01  # noqa: F401
 import r_c07  # noqa: F401
 import r_c09  # noqa: F401
 import r_c11  # noqa: F401
+import r_c18  # noqa: F401
